@@ -628,3 +628,104 @@ def traverse(run: Run, params: dict[str, Any] | None = None) -> None:
     finally:
         for c in coros.values():
             c.close()
+
+
+# ---------------------------------------------------------------------------
+# manual tools (intertest_setup) on the same harness
+
+
+class ToolScenario:
+    """A call of an intertest_setup tool (the selftests' job seam) instead of a plain traversal."""
+
+    lazy = False
+    restriction = ""
+
+    def __init__(self, name: str, tool: str, nets: str = "net1", vm_strs: dict[str, str] | None = None, params: dict[str, str] | None = None, vms_params: dict[str, str] | None = None, tag: str = "1r") -> None:
+        self.name = name
+        self.tool = tool
+        self.nets = nets
+        self.available_vms = {"vm1": "only CentOS\n", "vm2": "only Win10\n", "vm3": "only Ubuntu\n"}
+        self.vm_strs = vm_strs if vm_strs is not None else dict(self.available_vms)
+        self.params = params or {}
+        self.vms_params = vms_params or {}
+        self.tag = tag
+
+    def param_dict(self) -> dict[str, str]:
+        d = {"nets": self.nets}
+        d.update(self.params)
+        return d
+
+
+class ToolCrash(Exception):
+    pass
+
+
+_tools_installed = False
+
+
+def install_tools() -> None:
+    global _tools_installed
+    install()
+    if _tools_installed:
+        return
+    _tools_installed = True
+    import contextlib
+    from unittest import mock
+
+    from avocado_i2n import intertest_setup
+    from avocado_i2n.cartgraph import worker as worker_mod
+    from avocado_i2n.plugins import runner as runner_mod
+
+    @contextlib.contextmanager
+    def new_job(config: Any) -> Any:
+        job = mock.MagicMock()
+        job.logdir = "."
+        job.timeout = 60
+        job.config = config
+        job.result.tests = []
+        loader, runner = config["graph"].l, config["graph"].r
+        loader.logdir = job.logdir
+        runner.job = job
+        yield job
+
+    intertest_setup.new_job = new_job
+    worker_mod.TestWorker.start = lambda self: True
+    runner_mod.SpawnerDispatcher = mock.MagicMock()
+
+    def run_workers(self: Any, test_suite: Any, params: Any) -> None:
+        run = CUR
+        assert run is not None
+        graph = test_suite
+        graph.runner = self
+        run.graph, run.runner = graph, self
+        run.tool_graphs.append(graph)
+        traverse(run, params)
+
+    runner_mod.TestRunner.run_workers = run_workers
+
+
+def run_tool(eng: symx.Engine, scenario: ToolScenario, config: Config) -> Run:
+    """Call the tool; the graph it builds is traversed under the scheduler inside run_workers."""
+    global CUR
+    install_tools()
+    from avocado_i2n import intertest_setup
+    from virttest.utils_params import Params
+
+    run = Run(eng, scenario, config)  # type: ignore[arg-type]
+    run.tool_graphs = []
+    run.tool_result = None
+    run.tool_error = None
+    CUR = run
+    cfg: dict[str, Any] = {}
+    cfg["available_vms"] = dict(scenario.available_vms)
+    cfg["available_restrictions"] = ["leaves", "normal", "minimal"]
+    cfg["param_dict"] = scenario.param_dict()
+    cfg["vm_strs"] = dict(scenario.vm_strs)
+    cfg["tests_str"] = {}
+    cfg["tests_params"] = Params()
+    cfg["vms_params"] = Params(dict(scenario.vms_params))
+    try:
+        run.tool_result = getattr(intertest_setup, scenario.tool)(cfg, tag=scenario.tag)
+    except ValueError as e:
+        run.tool_error = e
+    return run
